@@ -3,9 +3,20 @@ package server
 // C12 — each partition is assigned to exactly one consumer of a group.
 //
 // Same engine as C06 (metadata state machines applying one committed sequence), with a
-// workload of joins, leaves, expiries (a leave committed for a timed-out member), stream
-// deletions and re-creations over up to 4 members, 3 streams and 1-5 partitions per stream.
-// Oracle, from the statement, evaluated on every node whenever the cluster is settled.
+// workload of joins, leaves, expiries (a leave committed for a timed-out member: generated, and
+// - when an FSM node coordinates the group and the member timeout is short - requested by the
+// server's own liveness timer), stream deletions and re-creations over up to 8 members,
+// 4 streams and 1-5 partitions per stream.
+//
+// Oracle, from the statement:
+//   - structure (every node, after every operation it applies, after every Restore, and whenever the
+//     cluster is settled): exactly one owner per partition of a subscribed stream, owners subscribed,
+//     single-stream groups balanced;
+//   - same assignments for the same group epoch: every (group incarnation, epoch) any node ever
+//     passes through - applying live, replaying, or restoring a snapshot - has one assignment;
+//   - settled servers hold the same groups at the same epochs;
+//   - what is served: the coordinator hands a member exactly the assignment the structure clauses
+//     judged, for the current epoch only; other servers hand out nothing.
 
 import (
 	"fmt"
@@ -18,13 +29,354 @@ import (
 )
 
 var c12mix = []weighted{
-	{"create", 10}, {"delete", 9}, {"join", 22}, {"leave", 14}, {"coord", 3}, {"pause", 2}, {"resume", 2},
-	{"snap", 6}, {"restart", 6}, {"advance", 8}, {"settle", 8},
+	{"create", 10}, {"delete", 9}, {"join", 22}, {"leave", 14}, {"coord", 4}, {"pause", 2}, {"resume", 2},
+	{"snap", 6}, {"restart", 6}, {"advance", 8}, {"settle", 8}, {"poll", 5}, {"install", 3},
 }
 
-func genC12(r *simrt.Rand, tier string, idx int) *hx.Program { return genFSM(r, tier, c12mix, 5) }
+// the directed family: one stream, joins and leaves (the balance clause only speaks about groups that consume one stream)
+var c12single = []weighted{
+	{"join", 40}, {"leave", 26}, {"coord", 4}, {"snap", 5}, {"restart", 5}, {"advance", 6}, {"settle", 10}, {"poll", 5}, {"install", 3},
+}
 
-func checkC12(f *fsm, final bool) {
+func genC12(r *simrt.Rand, tier string, idx int) *hx.Program {
+	p := genFSM(r, tier, c12mix, 5)
+	// swarm: each behaviour in a share of the programs
+	if r.Pct(60) {
+		p.P["obscoord"] = 1 // the FSM nodes' own ids are coordinator candidates: assignments are served, member timers run
+		p.P["ctimeout_ms"] = []int64{2 * 3600 * 1000, 2 * 3600 * 1000, 3, 10, 40}[r.Intn(5)]
+	}
+	if r.Pct(35) {
+		p.P["names"] = 1
+	}
+	if r.Pct(30) {
+		p.P["raftentries"] = 1 // raft's own entries in the log: group epochs are raft indices
+	}
+	if r.Pct(18) {
+		// one stream (five partitions most of the time), then only group operations
+		n := len(p.Ops)
+		parts := int64(4)
+		if r.Pct(35) {
+			parts = int64(r.Intn(5))
+		}
+		p.Ops = []hx.Op{{K: "create", A: []int64{int64(r.Intn(4)), parts, int64(r.Intn(3)), int64(r.Intn(3))}}}
+		p.P["single"] = 1
+		for i := 0; i < n; i++ {
+			g := int64(0)
+			if r.Pct(15) {
+				g = 1
+			}
+			p.Ops = append(p.Ops, hx.Op{K: pickWeighted(r, c12single), A: []int64{g, int64(r.Intn(16)), int64(r.Intn(16)), int64(r.Intn(12))}})
+		}
+	}
+	return p
+}
+
+func sortedKeys[V any](m map[string]V) []string {
+	ks := make([]string, 0, len(m))
+	for k := range m {
+		ks = append(ks, k)
+	}
+	sort.Strings(ks)
+	return ks
+}
+
+// c12Group is one consistent reading of a group (one acquisition of its lock).
+type c12Group struct {
+	g         *consumerGroup
+	id        string
+	coord     string
+	epoch     uint64
+	recovered bool
+	members   map[string][]string           // member -> subscribed streams (sorted)
+	assign    map[string]map[string][]int32 // member -> stream -> partitions (sorted)
+}
+
+func c12Read(g *consumerGroup) *c12Group {
+	v := &c12Group{g: g, members: map[string][]string{}, assign: map[string]map[string][]int32{}}
+	simrt.RLock(&g.mu)
+	v.id, v.coord, v.epoch, v.recovered = g.id, g.coordinator, g.epoch, g.recovered
+	for id, m := range g.members {
+		var ss []string
+		for s := range m.streams {
+			ss = append(ss, s)
+		}
+		sort.Strings(ss)
+		v.members[id] = ss
+		v.assign[id] = map[string][]int32{}
+		for s, ps := range m.assignments {
+			cp := append([]int32(nil), ps...)
+			sort.Slice(cp, func(i, j int) bool { return cp[i] < cp[j] })
+			v.assign[id][s] = cp
+		}
+	}
+	simrt.RUnlock(&g.mu)
+	return v
+}
+
+func c12Groups(srv *Server) []*c12Group {
+	var out []*c12Group
+	for _, g := range srv.metadata.GetConsumerGroups() {
+		out = append(out, c12Read(g))
+	}
+	sort.Slice(out, func(i, j int) bool { return out[i].id < out[j].id })
+	return out
+}
+
+// c12Structure judges one group of one server against the statement's first two sentences.
+func c12Structure(h *h3, srv *Server, v *c12Group) (problem, sig string) {
+	gid, members, assign := v.id, v.members, v.assign
+	subscribed := map[string]map[string]bool{} // stream -> members
+	for m, ss := range members {
+		for _, s := range ss {
+			if subscribed[s] == nil {
+				subscribed[s] = map[string]bool{}
+			}
+			subscribed[s][m] = true
+		}
+	}
+	// no assignment without subscription (or membership)
+	for _, m := range sortedKeys(assign) {
+		if _, ok := members[m]; !ok {
+			return fmt.Sprintf("group %s hands assignments to %s, which is not a member: %s", gid, m, assignmentString(assign)), "C12/assigned-to-non-member"
+		}
+		for _, s := range sortedKeys(assign[m]) {
+			if len(assign[m][s]) > 0 && !subscribed[s][m] {
+				return fmt.Sprintf("group %s: member %s is assigned %s%v but did not subscribe to it (subscriptions %v): %s", gid, m, s, assign[m][s], members[m], assignmentString(assign)), "C12/assigned-without-subscription"
+			}
+		}
+	}
+	// every partition of every subscribed stream: exactly one owner among the subscribed members
+	for _, s := range sortedKeys(subscribed) {
+		st := srv.metadata.GetStream(s)
+		if st == nil || st.IsTombstoned() {
+			return fmt.Sprintf("group %s: members %v are still subscribed to stream %s, which does not exist", gid, sortedKeys(subscribed[s]), s), "C12/subscribed-to-deleted-stream"
+		}
+		np := int32(len(st.GetPartitions()))
+		owners := map[int32][]string{}
+		for _, m := range sortedKeys(assign) {
+			for _, p := range assign[m][s] {
+				owners[p] = append(owners[p], m)
+			}
+		}
+		h.oc.Checks++
+		for p := int32(0); p < np; p++ {
+			if len(owners[p]) != 1 {
+				return fmt.Sprintf("group %s: partition %s/%d has %d owners %v (subscribed members %v): %s", gid, s, p, len(owners[p]), owners[p], sortedKeys(subscribed[s]), assignmentString(assign)), fmt.Sprintf("C12/partition-with-%d-owners", min2(len(owners[p]), 2))
+			}
+		}
+		var ps []int
+		for p := range owners {
+			ps = append(ps, int(p))
+		}
+		sort.Ints(ps)
+		for _, p := range ps {
+			if p < 0 || int32(p) >= np {
+				return fmt.Sprintf("group %s: partition %s/%d does not exist but is assigned to %v", gid, s, p, owners[int32(p)]), "C12/assigned-nonexistent-partition"
+			}
+		}
+	}
+	// a group consuming a single stream is balanced (among the members that subscribed to it)
+	if len(subscribed) == 1 {
+		lo, hi := 1<<30, -1
+		subs := subscribed[sortedKeys(subscribed)[0]]
+		for _, m := range sortedKeys(subs) {
+			c := 0
+			for _, ps := range assign[m] {
+				c += len(ps)
+			}
+			if c < lo {
+				lo = c
+			}
+			if c > hi {
+				hi = c
+			}
+		}
+		h.oc.Checks++
+		if len(subs) >= 2 {
+			h.s.Count("probe.balance_judged_with_2+_members")
+		}
+		if len(subs) >= 4 {
+			h.s.Count("probe.balance_judged_with_4+_members")
+		}
+		if hi-lo > 1 {
+			return fmt.Sprintf("group %s consumes one stream but its members' partition counts differ by %d: %s", gid, hi-lo, assignmentString(assign)), "C12/unbalanced"
+		}
+	}
+	return "", ""
+}
+
+// c12State is the engine's hook: node n (on its own task) has just applied operation idx, or has
+// just been restored to the state after idx operations.
+type c12Seen struct {
+	assign string
+	node   int
+	how    string
+	at     uint64
+}
+
+type c12 struct {
+	f    *fsm
+	seen map[string]c12Seen // group@incarnation/epoch -> the assignment first seen for it
+}
+
+func (c *c12) state(n *fsmNode, srv *Server, idx uint64, how string) {
+	h := c.f.h
+	if h.stop {
+		return
+	}
+	for _, v := range c12Groups(srv) {
+		if problem, sig := c12Structure(h, srv, v); problem != "" {
+			h.fail("C12/assignments", sig, "node %d (restarts=%d) right after %s %d: %s", n.idx, n.restarts, how, idx, problem)
+			return
+		}
+		key := fmt.Sprintf("%s@%d/%d", v.id, c.f.groupIncarnation(v.id, idx), v.epoch)
+		a := assignmentString(v.assign)
+		h.oc.Checks++
+		prev, ok := c.seen[key]
+		if !ok {
+			c.seen[key] = c12Seen{assign: a, node: n.idx, how: how, at: idx}
+			continue
+		}
+		if prev.node != n.idx || prev.how != how {
+			h.s.Count("probe.epoch_seen_again_by_" + how)
+		}
+		if prev.assign != a {
+			kind := "live"
+			if how == "restore" || n.restarts > 0 {
+				kind = "restart"
+			}
+			h.fail("C12/same-assignments", "C12/servers-disagree/at-epoch/"+kind, "group %s (created by operation %d) at epoch %d: node %d had %s after %s %d, node %d (restarts=%d) has %s after %s %d",
+				v.id, c.f.groupIncarnation(v.id, idx), v.epoch, prev.node, prev.assign, prev.how, prev.at, n.idx, n.restarts, a, how, idx)
+			return
+		}
+	}
+}
+
+func sameAssignment(a partitionAssignments, b map[string][]int32) bool {
+	na := 0
+	for s, ps := range a {
+		if len(ps) == 0 {
+			continue
+		}
+		na++
+		cp := append([]int32(nil), ps...)
+		sort.Slice(cp, func(i, j int) bool { return cp[i] < cp[j] })
+		if fmt.Sprint(cp) != fmt.Sprint(b[s]) {
+			return false
+		}
+	}
+	nb := 0
+	for _, ps := range b {
+		if len(ps) > 0 {
+			nb++
+		}
+	}
+	return na == nb
+}
+
+// c12Serve asks one server for the assignments of every member of every group it knows, the way the
+// API does, and judges the answers against the server's own state. Runs on a task of the node. When
+// quiet is false the node may be applying operations meanwhile: an answer is judged only if the
+// group did not change around it.
+func (c *c12) serve(n *fsmNode, srv *Server, quiet bool) (problem, sig string) {
+	h := c.f.h
+	self := srv.config.Clustering.ServerID
+	md := srv.metadata
+	for _, v := range c12Groups(srv) {
+		stable := func() bool {
+			if quiet {
+				return true
+			}
+			if md.GetConsumerGroup(v.id) != v.g {
+				return false
+			}
+			w := c12Read(v.g)
+			return w.epoch == v.epoch && w.coord == v.coord && w.recovered == v.recovered && len(w.members) == len(v.members)
+		}
+		if v.coord != self {
+			for _, m := range sortedKeys(v.members) {
+				a, _, err := md.GetConsumerGroupAssignments(v.id, m, v.epoch)
+				if !stable() {
+					h.s.Count("probe.poll_overtaken_by_an_operation")
+					break
+				}
+				h.oc.Checks++
+				h.s.Count("probe.served.refused_by_non_coordinator")
+				if err == nil {
+					return fmt.Sprintf("server %s hands out assignments of group %s (%v to member %s) although the coordinator is %s", self, v.id, a, m, v.coord), "C12/served-by-non-coordinator"
+				}
+				if err != ErrBrokerNotCoordinator {
+					return fmt.Sprintf("server %s, not the coordinator of group %s (that is %s), refuses member %s with %q instead of ErrBrokerNotCoordinator", self, v.id, v.coord, m, err), "C12/served/wrong-refusal"
+				}
+			}
+			continue
+		}
+		if v.recovered {
+			// The group was rebuilt from a snapshot (or created during replay) and recovery has not been
+			// declared finished on this server: no member timers, the coordinator serves nobody ("consumer not
+			// active for server"). With nothing to replay after a snapshot that state lasts until the next
+			// coordinator change (the groups' side of the recorded C18 finding partition-restored-from-snapshot-
+			// never-started). The statement does not speak about availability: counted, not judged.
+			h.s.Count("probe.served.coordinator_still_in_recovery")
+			continue
+		}
+		for _, m := range sortedKeys(v.members) {
+			a, e, err := md.GetConsumerGroupAssignments(v.id, m, v.epoch)
+			if !stable() {
+				h.s.Count("probe.poll_overtaken_by_an_operation")
+				break
+			}
+			h.oc.Checks++
+			h.s.Count("probe.served.by_coordinator")
+			if err != nil {
+				return fmt.Sprintf("server %s coordinates group %s (epoch %d, not in recovery) and refuses member %s its assignment %v: %v", self, v.id, v.epoch, m, v.assign[m], err), "C12/served/coordinator-refuses-member"
+			}
+			if e != v.epoch || !sameAssignment(a, v.assign[m]) {
+				return fmt.Sprintf("server %s coordinates group %s at epoch %d: member %s is told %v (epoch %d), the group holds %v for it", self, v.id, v.epoch, m, a, e, v.assign[m]), "C12/served/differs-from-assignment"
+			}
+			for _, wrong := range []uint64{v.epoch + 1, v.epoch - 1} {
+				a, _, err := md.GetConsumerGroupAssignments(v.id, m, wrong)
+				if !stable() {
+					break
+				}
+				h.oc.Checks++
+				h.s.Count("probe.served.refused_for_other_epoch")
+				if err == nil {
+					return fmt.Sprintf("server %s coordinates group %s at epoch %d and hands member %s %v for epoch %d", self, v.id, v.epoch, m, a, wrong), "C12/served-for-wrong-epoch"
+				}
+				if err != ErrGroupEpoch {
+					return fmt.Sprintf("server %s coordinates group %s at epoch %d and refuses member %s asking for epoch %d with %q instead of ErrGroupEpoch", self, v.id, v.epoch, m, wrong, err), "C12/served/wrong-refusal"
+				}
+			}
+		}
+		a, _, err := md.GetConsumerGroupAssignments(v.id, "nobody", v.epoch)
+		if stable() {
+			h.oc.Checks++
+			if err == nil {
+				return fmt.Sprintf("server %s coordinates group %s and hands %v to a consumer that is not a member", self, v.id, a), "C12/assigned-to-non-member"
+			}
+		}
+	}
+	return "", ""
+}
+
+func (c *c12) poll(n *fsmNode, arg int64) {
+	h := c.f.h
+	if !n.up || n.srv == nil {
+		return
+	}
+	srv := n.srv
+	var problem, sig string
+	if h.do(n.node, "poll", func() { problem, sig = c.serve(n, srv, false) }) {
+		return
+	}
+	h.s.Count("probe.polls")
+	if problem != "" {
+		h.fail("C12/served", sig, "node %d (restarts=%d, applied %d of %d): %s", n.idx, n.restarts, n.applied, len(c.f.log), problem)
+	}
+}
+
+func (c *c12) check(f *fsm, final bool) {
 	h := f.h
 	type view struct {
 		epoch  uint64
@@ -34,88 +386,25 @@ func checkC12(f *fsm, final bool) {
 	for _, n := range f.nodes {
 		var problem, sig string
 		views := map[string]view{}
-		h.do(n.node, "assignments", func() {
-			for _, g := range n.srv.metadata.GetConsumerGroups() {
-				gid := g.GetID()
-				_, epoch := g.GetCoordinator()
-				members := g.GetMembers()
-				assign := fsmAssignments(g)
-				views[gid] = view{epoch: epoch, assign: assignmentString(assign)}
-				subscribed := map[string]map[string]bool{} // stream -> members
-				for m, ss := range members {
-					for _, s := range ss {
-						if subscribed[s] == nil {
-							subscribed[s] = map[string]bool{}
-						}
-						subscribed[s][m] = true
-					}
-				}
-				// no assignment without subscription (or membership)
-				for _, m := range simrt.Keys(assign) {
-					if _, ok := members[m]; !ok {
-						problem, sig = fmt.Sprintf("group %s hands assignments to %s, which is not a member: %s", gid, m, assignmentString(assign)), "C12/assigned-to-non-member"
-						return
-					}
-					for _, s := range simrt.Keys(assign[m]) {
-						if len(assign[m][s]) > 0 && !subscribed[s][m] {
-							problem, sig = fmt.Sprintf("group %s: member %s is assigned %s%v but did not subscribe to it (subscriptions %v): %s", gid, m, s, assign[m][s], members[m], assignmentString(assign)), "C12/assigned-without-subscription"
-							return
-						}
-					}
-				}
-				// every partition of every subscribed stream: exactly one owner among the subscribed members
-				for _, s := range simrt.Keys(subscribed) {
-					st := n.srv.metadata.GetStream(s)
-					if st == nil || st.IsTombstoned() {
-						problem, sig = fmt.Sprintf("group %s: members %v are still subscribed to stream %s, which does not exist", gid, simrt.Keys(subscribed[s]), s), "C12/subscribed-to-deleted-stream"
-						return
-					}
-					np := int32(len(st.GetPartitions()))
-					owners := map[int32][]string{}
-					for _, m := range simrt.Keys(assign) {
-						for _, p := range assign[m][s] {
-							owners[p] = append(owners[p], m)
-						}
-					}
-					h.oc.Checks++
-					for p := int32(0); p < np; p++ {
-						if len(owners[p]) != 1 {
-							problem, sig = fmt.Sprintf("group %s: partition %s/%d has %d owners %v (subscribed members %v): %s", gid, s, p, len(owners[p]), owners[p], simrt.Keys(subscribed[s]), assignmentString(assign)), fmt.Sprintf("C12/partition-with-%d-owners", min2(len(owners[p]), 2))
-							return
-						}
-					}
-					for p := range owners {
-						if p < 0 || p >= np {
-							problem, sig = fmt.Sprintf("group %s: partition %s/%d does not exist but is assigned to %v", gid, s, p, owners[p]), "C12/assigned-nonexistent-partition"
-							return
-						}
-					}
-				}
-				// a group consuming a single stream is balanced (among the members that subscribed to it)
-				if len(subscribed) == 1 {
-					lo, hi := 1<<30, -1
-					for m := range subscribed[simrt.Keys(subscribed)[0]] {
-						c := 0
-						for _, ps := range assign[m] {
-							c += len(ps)
-						}
-						if c < lo {
-							lo = c
-						}
-						if c > hi {
-							hi = c
-						}
-					}
-					h.oc.Checks++
-					if hi-lo > 1 {
-						problem, sig = fmt.Sprintf("group %s consumes one stream but its members' partition counts differ by %d: %s", gid, hi-lo, assignmentString(assign)), "C12/unbalanced"
-						return
-					}
+		srv := n.srv
+		died := h.do(n.node, "assignments", func() {
+			for _, v := range c12Groups(srv) {
+				views[v.id] = view{epoch: v.epoch, assign: assignmentString(v.assign)}
+				if problem, sig = c12Structure(h, srv, v); problem != "" {
+					return
 				}
 			}
+			problem, sig = c.serve(n, srv, true)
 		})
+		if died || len(h.s.Panics) > 0 {
+			return // a panic inside the server (reported as C12/crash) took the node away: nothing to compare
+		}
 		if problem != "" {
-			h.fail("C12/assignments", sig, "node %d (restarts=%d) after %d committed operations: %s", n.idx, n.restarts, len(f.log), problem)
+			clause := "C12/assignments"
+			if strings.HasPrefix(sig, "C12/served") {
+				clause = "C12/served"
+			}
+			h.fail(clause, sig, "node %d (restarts=%d) after %d committed operations: %s", n.idx, n.restarts, len(f.log), problem)
 			return
 		}
 		if n.idx == 0 {
@@ -126,13 +415,26 @@ func checkC12(f *fsm, final bool) {
 		if n.restarts > 0 {
 			kind = "restart"
 		}
-		gids := simrt.Keys(views)
-		sort.Strings(gids)
-		for _, gid := range gids {
-			v := views[gid]
-			r, ok := ref[gid]
+		// every server applied the same sequence: the same groups, at the same epochs, with the same assignments
+		all := map[string]bool{}
+		for g := range views {
+			all[g] = true
+		}
+		for g := range ref {
+			all[g] = true
+		}
+		for _, gid := range sortedKeys(all) {
+			v, okv := views[gid]
+			r, okr := ref[gid]
 			h.oc.Checks++
-			if ok && r.epoch == v.epoch && r.assign != v.assign {
+			switch {
+			case okv != okr:
+				h.fail("C12/same-assignments", "C12/servers-disagree/group-missing/"+kind, "after the same %d committed operations group %s exists on the reference node: %v (%s), on node %d (restarts=%d): %v (%s)", len(f.log), gid, okr, r.assign, n.idx, n.restarts, okv, v.assign)
+				return
+			case r.epoch != v.epoch:
+				h.fail("C12/same-assignments", "C12/servers-disagree/epoch/"+kind, "after the same %d committed operations group %s is at epoch %d on the reference node (%s) and at epoch %d on node %d (restarts=%d) (%s): one of them refuses the members the other serves", len(f.log), gid, r.epoch, r.assign, v.epoch, n.idx, n.restarts, v.assign)
+				return
+			case r.assign != v.assign:
 				h.fail("C12/same-assignments", "C12/servers-disagree/"+kind, "after the same %d committed operations, group %s at epoch %d: reference node hands out %s, node %d (restarts=%d) hands out %s", len(f.log), gid, v.epoch, r.assign, n.idx, n.restarts, v.assign)
 				return
 			}
@@ -148,7 +450,12 @@ func min2(a, b int) int {
 }
 
 func execC12(t *testing.T, prog *hx.Program, dec *simrt.Decider, verbose bool) *hx.Outcome {
-	oc := runFSM(t, prog, dec, verbose, checkC12)
+	c := &c12{seen: map[string]c12Seen{}}
+	oc := runFSM(t, prog, dec, verbose, func(f *fsm, final bool) { c.check(f, final) }, func(f *fsm) {
+		c.f = f
+		f.onState = c.state
+		f.onPoll = c.poll
+	})
 	joins := 0
 	for k, v := range oc.Counters {
 		if k == "op.join_consumer_group" || k == "op.create_consumer_group" {
